@@ -31,6 +31,9 @@ type PQCase struct {
 	Steps        []gen.Step   `json:"steps"`
 	Queries      [][]VecQuery `json:"queries"`
 	CacheLimit   int64        `json:"cacheLimit"`
+	// AfterBulk: "", "reopen" or "evict" right after the bulk insert, so that the shared cache is
+	// filled from storage by the following searches and then lives through the later write batches
+	AfterBulk string `json:"afterBulk,omitempty"`
 }
 
 func (c PQCase) Prop() string {
@@ -61,6 +64,7 @@ func GenPQCase(t *rapid.T, vamana bool) PQCase {
 		c.SearchSize = rapid.SampledFrom([]int{25, 75}).Draw(t, "searchSize")
 		c.DegreeBound = rapid.SampledFrom([]int{8, 32, 64}).Draw(t, "degreeBound")
 	}
+	c.AfterBulk = rapid.SampledFrom([]string{"", "reopen", "evict"}).Draw(t, "afterBulk")
 	ho := gen.HistoryOpts{MaxSteps: 5, MaxBatch: 8, PoolSize: 24, FieldProb: 95}
 	g := gen.NewHistoryGen(t, c.Schema(), 1<<20, ho)
 	n := rapid.IntRange(1, 5).Draw(t, "nsteps")
@@ -207,6 +211,12 @@ func ExecPQCase(c PQCase) (res vt.Result) {
 			}
 		}
 		return drive.StrayVerdict(r.S)
+	}
+	if c.AfterBulk != "" {
+		if _, err := r.Apply(gen.Step{Kind: c.AfterBulk}); err != nil {
+			return vt.Result{Err: fmt.Errorf("%s after the bulk insert: %v", c.AfterBulk, err)}
+		}
+		rec.Count("pq_cases_"+c.AfterBulk+"_after_bulk", 1)
 	}
 	first := []VecQuery{{Prop: prop, Vector: gen.BulkVector(c.Seed, 3, c.Dim, c.Metric), Limit: 10, SearchSize: 75}, {Prop: prop, Vector: gen.BulkVector(c.Seed+1, 5, c.Dim, c.Metric), Limit: 75, SearchSize: 75}}
 	if err := check("after the bulk insert", first); err != nil {
